@@ -57,6 +57,18 @@ def gen_request(rng, ids):
         if lines[-2].startswith("Filter") and rng.random() < 0.5:
             lines.append(rng.choice(["And: 2", "Or: 2"]))
     if stats:
+        if rng.random() < 0.35:
+            # counters that are groups, two or three in a row with the same first term: lmd's optimiser merges such groups for
+            # its own evaluation, what the backends are sent has to stay the client's Stats
+            lead = "Stats: %s %s %d" % (rng.choice(["class", "state", "attempt"]), rng.choice(["=", "!=", ">="]), rng.choice([0, 1, 2]))
+            for _ in range(rng.choice([2, 2, 3])):
+                lines.append(lead if rng.random() < 0.85 else "Stats: class = 3")
+                k = rng.choice([1, 1, 2])
+                for _ in range(k):
+                    lines.append("Stats: %s %s %d" % (rng.choice(["class", "state", "attempt", "lineno"]), rng.choice(["=", "!=", ">=", "<"]), rng.choice([0, 1, 2, 3])))
+                lines.append("%s: %d" % (rng.choice(["StatsAnd", "StatsAnd", "StatsAnd", "StatsOr"]), k + 1))
+                if rng.random() < 0.1:
+                    lines.append("StatsNegate:")
         for _ in range(rng.choice([1, 2, 3])):
             r = rng.random()
             if r < 0.6:
